@@ -541,7 +541,49 @@ func init() {
 				return RValue{t: st.Field(i).Type(), v: copyVal(r.v.(Struct)[i]), ro: r.ro || !st.Field(i).Exported()}
 			}
 		}
+		for _, nm := range promotedFieldNames(st) {
+			if e.nameIs(a[1].(Str), nm) {
+				if path, _ := promotedPath(r.t, nm); path != nil {
+					out, ok := e.fieldByIndex(r, path)
+					if !ok {
+						e.reflectPanic("reflect: indirection through nil pointer to embedded struct")
+					}
+					return out
+				}
+				break
+			}
+		}
 		return RValue{}
+	})
+	R("(reflect.Value).FieldByIndex", func(e *Exec, _ *frame, a []Value) Value {
+		r := rv(a[0])
+		if _, ok := under(r.t).(*types.Struct); r.t == nil || !ok {
+			e.valueErrorPanic("reflect.Value.FieldByIndex", kindOf(r.t))
+		}
+		var path []int
+		for _, c := range sliceElems(a[1].(Slice)) {
+			path = append(path, int(e.path.concretizeVal(e, c, "FieldByIndex")))
+		}
+		out, ok := e.fieldByIndex(r, path)
+		if !ok {
+			e.reflectPanic("reflect: indirection through nil pointer to embedded struct")
+		}
+		return out
+	})
+	R("(reflect.Value).FieldByIndexErr", func(e *Exec, _ *frame, a []Value) Value {
+		r := rv(a[0])
+		if _, ok := under(r.t).(*types.Struct); r.t == nil || !ok {
+			e.valueErrorPanic("reflect.Value.FieldByIndexErr", kindOf(r.t))
+		}
+		var path []int
+		for _, c := range sliceElems(a[1].(Slice)) {
+			path = append(path, int(e.path.concretizeVal(e, c, "FieldByIndexErr")))
+		}
+		out, ok := e.fieldByIndex(r, path)
+		if !ok {
+			return Tuple{RValue{}, e.newErrorString(mkStr("reflect: indirection through nil pointer to embedded struct field"))}
+		}
+		return Tuple{out, Iface{}}
 	})
 	R("(reflect.Value).Field", func(e *Exec, _ *frame, a []Value) Value {
 		r := rv(a[0])
@@ -888,6 +930,16 @@ func (e *Exec) rtypeMethod(rt RType, name string, a []Value) Value {
 					return Tuple{e.structField(u, i), true}
 				}
 			}
+			// fields promoted through embedded structs (Go's depth and ambiguity rules: go/types)
+			for _, nm := range promotedFieldNames(u) {
+				if e.nameIs(a[0].(Str), nm) {
+					if path, ft := promotedPath(t, nm); path != nil {
+						sf := e.structFieldAt(t, path, ft)
+						return Tuple{sf, true}
+					}
+					break
+				}
+			}
 			return Tuple{e.zero(e.w.structFieldT), false}
 		}
 		kindPanic()
@@ -1010,4 +1062,99 @@ func (e *Exec) valueComparable(t types.Type, v Value) bool {
 		return true
 	}
 	return types.Comparable(t)
+}
+
+
+// promotedFieldNames lists the names of fields reachable through embedded structs of u (candidates
+// only; promotedPath applies Go's selection rules).
+func promotedFieldNames(u *types.Struct) []string {
+	seen := map[string]bool{}
+	var out []string
+	var walk func(u *types.Struct, depth int)
+	walk = func(u *types.Struct, depth int) {
+		if depth > 4 {
+			return
+		}
+		for i := 0; i < u.NumFields(); i++ {
+			f := u.Field(i)
+			if depth > 0 && !seen[f.Name()] {
+				seen[f.Name()] = true
+				out = append(out, f.Name())
+			}
+			if f.Embedded() {
+				ft := f.Type()
+				if p, ok := under(ft).(*types.Pointer); ok {
+					ft = p.Elem()
+				}
+				if eu, ok := under(ft).(*types.Struct); ok {
+					walk(eu, depth+1)
+				}
+			}
+		}
+	}
+	walk(u, 0)
+	return out
+}
+
+// promotedPath returns the index path of the field selected by name in t (nil if none or ambiguous).
+func promotedPath(t types.Type, name string) ([]int, types.Type) {
+	var pkg *types.Package
+	if n, ok := t.(*types.Named); ok && n.Obj() != nil {
+		pkg = n.Obj().Pkg()
+	}
+	obj, index, _ := types.LookupFieldOrMethod(t, true, pkg, name)
+	if v, ok := obj.(*types.Var); ok && v.IsField() {
+		return index, v.Type()
+	}
+	return nil, nil
+}
+
+// fieldByIndex follows an index path through embedded structs; ok is false at a nil embedded pointer.
+func (e *Exec) fieldByIndex(r RValue, path []int) (RValue, bool) {
+	cur := r
+	for n, i := range path {
+		if n > 0 {
+			if p, ok := under(cur.t).(*types.Pointer); ok {
+				ptr := cur.v.(Ptr)
+				if ptr.p == nil {
+					return RValue{}, false
+				}
+				cur = RValue{t: p.Elem(), v: copyVal(*ptr.p), ro: cur.ro}
+			}
+		}
+		st, ok := under(cur.t).(*types.Struct)
+		if !ok || i < 0 || i >= st.NumFields() {
+			e.reflectPanic("reflect: Field index out of range")
+		}
+		cur = RValue{t: st.Field(i).Type(), v: copyVal(cur.v.(Struct)[i]), ro: cur.ro || !st.Field(i).Exported()}
+	}
+	return cur, true
+}
+
+// structFieldAt builds the reflect.StructField of a promoted field.
+func (e *Exec) structFieldAt(t types.Type, path []int, ft types.Type) Value {
+	cur := t
+	var u *types.Struct
+	for n, i := range path {
+		if p, ok := under(cur).(*types.Pointer); ok {
+			cur = p.Elem()
+		}
+		u = under(cur).(*types.Struct)
+		if n == len(path)-1 {
+			sf := e.structField(u, i).(Struct)
+			fts := under(e.w.structFieldT).(*types.Struct)
+			for j := 0; j < fts.NumFields(); j++ {
+				if fts.Field(j).Name() == "Index" {
+					o := e.newObj(len(path), "index")
+					for k, x := range path {
+						o.cells[k] = int64(x)
+					}
+					sf[j] = Slice{arr: o, len: len(path), cap: len(path)}
+				}
+			}
+			return sf
+		}
+		cur = u.Field(i).Type()
+	}
+	return e.zero(e.w.structFieldT)
 }
